@@ -133,15 +133,15 @@ theorem cast_result (e e' : Expr) (t : DataType) (h : castE e t = .ok e') : e' =
 theorem predWT_bool {e : Expr} (h : WTPred (.expr e)) : e.ty = T.BOOL := h.2.1
 
 theorem mkNot_stable (e : Expr) (h : e.ty = T.BOOL) : ∃ d, findUn Gen.NOT_OPERATOR = some d ∧ mkNot e = .ok (.un d.res Gen.NOT_OPERATOR e) := by
-  refine ⟨⟨"not", 1, 1⟩, by decide, ?_⟩
+  refine ⟨⟨"not", T.BOOL, T.BOOL⟩, by decide, ?_⟩
   unfold mkNot
-  exact mkUn_stable (d := ⟨"not", 1, 1⟩) (by decide) (by rw [h]; decide) (by rw [h]; decide)
+  exact mkUn_stable (d := ⟨"not", T.BOOL, T.BOOL⟩) (by decide) (by rw [h]; decide) (by rw [h]; decide)
 
 theorem mkAnd_stable (a b : Expr) (ha : a.ty = T.BOOL) (hb : b.ty = T.BOOL) :
     ∃ d, findBin Gen.AND_OPERATOR = some d ∧ mkAnd a b = .ok (.bin d.res Gen.AND_OPERATOR a b) := by
-  refine ⟨⟨"and", 1, 1, 1, true, true, true⟩, by decide, ?_⟩
+  refine ⟨⟨"and", T.BOOL, T.BOOL, T.BOOL, true, true, true⟩, by decide, ?_⟩
   unfold mkAnd
-  exact mkBin_stable (d := ⟨"and", 1, 1, 1, true, true, true⟩) (by decide) (by rw [ha]; decide) (by rw [hb]; decide)
+  exact mkBin_stable (d := ⟨"and", T.BOOL, T.BOOL, T.BOOL, true, true, true⟩) (by decide) (by rw [ha]; decide) (by rw [hb]; decide)
     (fun _ => by rw [ha, hb]) (by rw [ha]; decide) (by rw [hb]; decide)
 
 end Hpl
